@@ -548,6 +548,24 @@ class Engine:
         self._run_fn(fn, args, on_ret)
         return self.obs
 
+    def run_from(self, fn: M.Function, block: int, locals_: Dict[int, Any], assumptions: List[Any] = ()) -> List[Obs]:
+        """start in the middle of a function: `locals_` are preset, every other local is a fresh symbol when first read"""
+        for a in assumptions:
+            self.solver.add(a)
+            self.pc.append(a)
+        fr = Frame(fn, len(self.frames))
+        fr.locals.update(locals_)
+        self.frames.append(fr)
+
+        def on_ret(v):
+            self.paths += 1
+            self.add_obs(Obs('return', fn.name, [v], list(self.pc), fn=fn.name, path_id=self.paths))
+        try:
+            self._run_block(fr, block, on_ret)
+        finally:
+            self.frames.pop()
+        return self.obs
+
     def _run_fn(self, fn: M.Function, args: List[Any], on_ret: Callable[[Any], None]):
         fr = Frame(fn, len(self.frames))
         for (pn, _), a in zip(fn.params, args):
